@@ -81,6 +81,9 @@ def run(tier, seed, model_ok, spec_ok, replay=None):
             doc, rts = corpus[i]
         if not rts:
             continue
+        for rt in rts:
+            if not rt.cast and g.r.random() < 0.15:
+                rt.empty_cast = True     # cast={}: comes back as {} (not None), so the rebuilt rule is == to this one
         if g.r.random() < 0.15:
             # a schema may hold the same rule twice (or twice up to the order of the operands of its condition)
             dup = copy.deepcopy(g.r.choice(rts))
@@ -105,7 +108,7 @@ def run(tier, seed, model_ok, spec_ok, replay=None):
         for rt in rts[:1]:
             out = E.run_outcome(lambda: rt.build().to_json_like())
             try:
-                model = f"(run_rule_to_json {rt.coq(Tags())} {E.enc_bool(bool(rt.cast))})"
+                model = f"(run_rule_to_json {rt.coq(Tags())} {E.enc_bool(rt.cast_given())})"
                 cases.append(Case({"rule": rt.descr()[:400], "impl": out[0] + ":" + repr(out[1])[:300], "coq": model[:5000]},
                                   model, None, E.enc_res(out, Inert0()), out, out[0] == "ok", key=rt.descr()))
             except E.Unencodable:
